@@ -47,6 +47,9 @@ func polyOracle(s polySpec, vs []v2.Vec, panicked bool, viol violFn) string {
 		}
 		return arcOracle(s, vs, viol)
 	}
+	if o := multiArcOracle(s, vs, panicked, viol); o != "" {
+		return o
+	}
 	all := true
 	for _, v := range s.V {
 		if !pureOps(v.Ops, "rel", "polar") {
@@ -346,4 +349,92 @@ func nagonOracle(n int, radius float64, vs []v2.Vec, viol violFn) {
 			return
 		}
 	}
+}
+
+// multiArcOracle: a polygon (open or closed, possibly reversed) of absolute vertices of which
+// some carry one Arc(r, n): every arc vertex with a predecessor must be preceded in the output by
+// its facets-1 points (each checked by arcOracle against the circle through the two chord ends),
+// every other vertex appears once, nothing else appears.  "" when the shape is not of this kind
+// or an arc is outside the claim (chord longer than the diameter, coincident ends).
+func multiArcOracle(s polySpec, vs []v2.Vec, panicked bool, viol violFn) string {
+	n := len(s.V)
+	if n < 2 {
+		return ""
+	}
+	arcs := 0
+	for _, v := range s.V {
+		if len(v.Ops) > 1 || (len(v.Ops) == 1 && v.Ops[0].Op != "arc") {
+			return ""
+		}
+		if len(v.Ops) == 1 {
+			arcs++
+		}
+	}
+	if arcs == 0 || (arcs == 1 && !s.Closed && !s.Reverse && n == 2) {
+		return "" // the two-vertex single arc has its own stratum
+	}
+	if panicked {
+		viol("Vertices() panicked on a polygon of plain and arc vertices")
+		return "multiarc"
+	}
+	P := func(i int) v2.Vec { return v2.Vec{X: s.V[i].X, Y: s.V[i].Y} }
+	type seg struct {
+		a, b v2.Vec
+		op   vop
+	}
+	segs := make([]*seg, n)
+	want := 0
+	for i := 0; i < n; i++ {
+		want++
+		if len(s.V[i].Ops) == 0 {
+			continue
+		}
+		op := s.V[i].Ops[0]
+		if op.A == 0 || op.N == 0 {
+			continue // marks nothing
+		}
+		if i == 0 && !s.Closed {
+			continue // no previous vertex: stays a plain vertex
+		}
+		a := P((i + n - 1) % n)
+		b := P(i)
+		L := norm(sub(b, a))
+		if op.N < 1 || L == 0 || math.Abs(op.A) < L/2*(1-1e-13) {
+			return ""
+		}
+		segs[i] = &seg{a, b, op}
+		want += op.N - 1
+	}
+	out := vs
+	if s.Reverse {
+		out = make([]v2.Vec, len(vs))
+		for i, v := range vs {
+			out[len(vs)-1-i] = v
+		}
+	}
+	name := fmt.Sprintf("multiarc/%darcs", arcs)
+	if arcs > 6 {
+		name = "multiarc/7+arcs"
+	}
+	if len(out) != want {
+		viol(fmt.Sprintf("%d vertices and %d arc segments must give %d vertices (facets-1 new points per arc), got %d: an arc segment was left straight or filled twice", n, arcs, want, len(out)))
+		return name
+	}
+	idx := 0
+	for i := 0; i < n; i++ {
+		if sg := segs[i]; sg != nil {
+			sub := append([]v2.Vec{sg.a}, out[idx:idx+sg.op.N]...)
+			i0 := i
+			arcOracle(polySpec{V: []vtx{{X: sg.a.X, Y: sg.a.Y}, {X: sg.b.X, Y: sg.b.Y, Ops: []vop{sg.op}}}}, sub,
+				func(what string) { viol(fmt.Sprintf("arc into vertex %d: %s", i0, what)) })
+			idx += sg.op.N
+		} else {
+			if out[idx] != P(i) {
+				viol(fmt.Sprintf("plain vertex %d = %v appears as %v", i, P(i), out[idx]))
+				return name
+			}
+			idx++
+		}
+	}
+	return name
 }
